@@ -47,6 +47,17 @@ CHECKS["C17"] = dict(
     technique="TLA+ model checking (TLC) + behaviour replay + TLC trace validation",
     design="6/C17")
 
+CHECKS["C14"] = dict(
+    level="model_checking",
+    text="TLC checks, for every well-formed layout of up to 3 files (empty/adjacent/gapped files, both Watford halves, Opus volume), that the "
+         "coded space walk, sector map, extract-unused loop and free arithmetic equal the set-based requirement (maximal unowned runs); each "
+         "layout is stretched to real sector numbers and, with seeded 31/62-file layouts, run through the four commands of the real dfs "
+         "(ASan+UBSan build); TraceSpace.tla judges every observation, which also makes the commands agree with each other.",
+    note="space's gap order is compared as a multiset; Watford well-formedness assumes the second catalogue's files lie above the first's; "
+         "output projections in checks/c14.py are trusted.",
+    technique="TLA+ model checking (TLC) + behaviour replay + TLC trace validation",
+    design="6/C14")
+
 PENDING_REASON = "check not built yet in this session (work in progress; design in DESIGN.md section 6)"
 
 
